@@ -100,6 +100,20 @@ fn exec_c15(case: &Case15, obs: &mut Obs) -> Result<(), Failure> {
         obs.count("probe:message-followed-by-64k-or-more");
     }
     obs.steps += 1;
+    if let ReaderCfg::Refusing(_) = &case.reader {
+        // the verdict on the message itself first, fault-free; then what a
+        // declined request may and may not change (in particular: it does
+        // not make the decoder accept a part of the message)
+        exec_c15(
+            &Case15 {
+                reader: ReaderCfg::Real,
+                ..case.clone()
+            },
+            obs,
+        )?;
+        obs.count("probe:refusing-reader");
+        return check_read_faults("C15", &b, Some(Opts::STRICT), &case.reader, "all-or-nothing-under-read-faults", obs);
+    }
     let model = spec_decode(&b, Opts::STRICT);
     let out = match decode_msg(&b, Some(Opts::STRICT), &case.reader, false) {
         Ok(o) => o,
@@ -258,6 +272,8 @@ impl Scenario for C15 {
             let total: usize = records.iter().map(|r| r.bytes.len()).sum();
             let reader = if sm.chance(1, 3) {
                 ReaderCfg::Real
+            } else if sm.chance(1, 6) {
+                draw_refusing(sm, total + 12)
             } else {
                 draw_reader(sm, total + 12)
             };
